@@ -4,7 +4,8 @@
 # against it through VERIF_REPO: every check must stay quiet (exit 0, no VIOLATION / MACHINERY line).
 id=$1; shift; props=${@:-C01 C02 C03 C04 C05 C06 C07 C08 C09 C10 C11 C12 C13 C14 C15 C16 C17 C18 C19}
 wt=$(mktemp -d /tmp/verif_benignwt_XXXXXX); rmdir $wt
-git -C /repo worktree add -q --detach $wt HEAD || exit 9
+base=HEAD; [ -f /verif/benign/$id/base ] && base=$(cat /verif/benign/$id/base)     # a change written against an older commit that a later fix: commit made unapplicable
+git -C /repo worktree add -q --detach $wt $base || exit 9
 cleanup() { git -C /repo worktree remove --force $wt 2>/dev/null; git -C /repo worktree prune; }
 trap cleanup EXIT
 git -C $wt apply /verif/benign/$id/patch.diff || { echo "$id: patch does not apply"; exit 8; }
